@@ -112,6 +112,36 @@ def run(chk: Check) -> None:
                         r1.ok(f"visit_instance: {nm} hit answers {want}", vi.loc(n.stmt))
                     else:
                         r1.violation(f"visit_instance: {nm} hit answers {want}", vi.loc(n.stmt), "a memo hit returns the wrong polarity")
+    # records: a positive entry only where the answer that follows is True, a negative one only where it is False
+    from ..cfg import branch_conditions
+    parents8 = vi.module.parents()
+    for n in g.nodes:
+        for c in n.calls():
+            nm = call_name(c)
+            if nm not in ("record_subtype_cache_entry", "record_negative_subtype_cache_entry"):
+                continue
+            want = nm == "record_subtype_cache_entry"
+            pos, neg = branch_conditions(parents8, vi.node, n.stmt)
+            known_true = {norm(t) for t in pos} | {norm(t.operand) for t in neg if isinstance(t, ast.UnaryOp) and isinstance(t.op, ast.Not)}
+            known_false = {norm(t) for t in neg} | {norm(t.operand) for t in pos if isinstance(t, ast.UnaryOp) and isinstance(t.op, ast.Not)}
+            # the first return reached after the record
+            nxt = [x for x in g.reachable([m for m, lab in n.succ if lab != "exc"], labels_excluded=("exc",)) if x.kind == "stmt" and isinstance(x.stmt, ast.Return)]
+            firsts = [x for x in nxt if not any(y is not x and y in g.reachable([m for m, lab in n.succ if lab != "exc"], avoiding=[x], labels_excluded=("exc",)) and x in g.reachable([y], labels_excluded=("exc",)) for y in nxt)]
+            bad = []
+            for rt in firsts:
+                v = rt.stmt.value
+                if isinstance(v, ast.Constant) and isinstance(v.value, bool):
+                    if v.value is not want:
+                        bad.append(f"returns {v.value} at line {rt.lineno}")
+                elif v is not None and norm(v) in (known_true if want else known_false):
+                    pass
+                else:
+                    bad.append(f"returns `{norm(v) if v is not None else None}` at line {rt.lineno}, not known to be {want} here")
+            key = f"visit_instance: {nm} at `{' ; '.join(sorted(known_true | {'not ' + k for k in known_false}))[:60]}` is followed by answer {want}"
+            if firsts and not bad:
+                r1.ok(key, vi.loc(n.stmt))
+            else:
+                r1.violation(key, vi.loc(n.stmt), f"a {'positive' if want else 'negative'} memo entry is recorded where the computed answer is not {want} ({'; '.join(bad) or 'no return follows'}): later queries for the same pair get the opposite answer from the memo")
     ts = ix.cls("mypy.typestate.TypeState")
     for look, rec, store in (("is_cached_subtype_check", "record_subtype_cache_entry", "_subtype_caches"), ("is_cached_negative_subtype_check", "record_negative_subtype_cache_entry", "_negative_subtype_caches")):
         lf, rf = ts.methods[look], ts.methods[rec]
